@@ -107,3 +107,12 @@ func init() {
 	reg("math/rand/v2.IntN", randN)
 	reg("math/rand.Intn", randN)
 }
+
+func init() {
+	// identifiers drawn from the global source: any value is admissible; a fixed one is used
+	fixed := func(m *machine, fr *frame, fn *ssa.Function, a []value) (value, bool) { return int64(0x5eed), true }
+	reg("math/rand.Uint64", fixed)
+	reg("math/rand.Uint32", fixed)
+	reg("math/rand/v2.Uint64", fixed)
+	reg("math/rand/v2.Uint32", fixed)
+}
